@@ -126,10 +126,11 @@ def program(cases):
     for c in cases:
         setup = getattr(c, "setup", "")
         post = getattr(c, "post", "")
-        pre = "mod case_%d {\nuse super::*;\n%s\npub fn run() {\nlet v: %s = %s;\n%s\nrun_case(%d, || {\nassert_struct!(\n" % (
-            c.id, c.decls_text, c.type_text, c.value_text, setup, c.id)
+        # wrap_open / wrap_close: code around the invocation inside the closure (e.g. `block_on(async {` .. `})` for `.await`); no newlines
+        pre = "mod case_%d {\nuse super::*;\n%s\npub fn run() {\nlet v: %s = %s;\n%s\nrun_case(%d, || {\n%sassert_struct!(\n" % (
+            c.id, c.decls_text, c.type_text, c.value_text, setup, c.id, getattr(c, "wrap_open", ""))
         c.first_line = lines + pre.count("\n") + 1
-        body = " " + c.text + "\n);\n});\n%s\n}\n}\n" % post
+        body = " " + c.text + "\n)%s;\n});\n%s\n}\n}\n" % (getattr(c, "wrap_close", ""), post)
         out.append(pre + body)
         lines += pre.count("\n") + body.count("\n")
         c.last_line = lines
@@ -191,7 +192,7 @@ def run_corpus(ck, stream, n, per_bin=20, allow_regex=True, forms=None, default_
     else:
         cases = gen_cases(rng, n, gen_stream or stream, allow_regex=allow_regex, forms=forms)
     import hashlib
-    digest = hashlib.sha256("\n".join(c.decls_text + "|" + c.type_text + "|" + c.value_text + "|" + c.text + "|" + getattr(c, "setup", "") + getattr(c, "post", "") for c in cases).encode()).hexdigest()[:16]
+    digest = hashlib.sha256("\n".join(c.decls_text + "|" + c.type_text + "|" + c.value_text + "|" + c.text + "|" + getattr(c, "setup", "") + getattr(c, "post", "") + getattr(c, "wrap_open", "") for c in cases).encode()).hexdigest()[:16]
     # impl results only (the spec side is recomputed); everything that changes how the programs are BUILT is part of the key
     cpath = os.path.join(cdir, "%s-%s-%s-%s-%s-%s.json" % (repo_hash(), stream, digest, "df" if default_features else "nodf", edition, "rel" if release else "dev"))
     expected_from_lean(ck, cases)
